@@ -24,6 +24,13 @@ type Input struct {
 	D       uint64       `json:"d"`
 	Budgets []int        `json:"budgets"`
 	Kind    string       `json:"kind"`
+	// stream "endpoint": the tree is stored through storage.Put over Slots 10-second slots and rendered with
+	// GET /render?format=json on the real server, once per entry of Params (raw max-nodes value; absentParam = the
+	// parameter is not sent) with config MaxNodesRender = Default
+	Via     string   `json:"via,omitempty"`
+	Slots   int      `json:"slots,omitempty"`
+	Params  []string `json:"params,omitempty"`
+	Default int      `json:"default,omitempty"`
 }
 
 var names = [][]byte{[]byte("a"), []byte("b"), []byte("c"), []byte("other"), []byte(""), []byte("total"),
@@ -101,6 +108,9 @@ func budgetsFor(n int) []int {
 }
 
 func gen(r *rand.Rand, idx int, tier string) Input {
+	if idx%5 == 3 {
+		return genEndpoint(r)
+	}
 	g := &genCtx{r: r, left: lib.Range(r, 1, 12), maxDepth: lib.Range(r, 1, 4), selfs: smallSelf}
 	in := Input{Kind: "consistent"}
 	rootName := []byte("")
@@ -146,6 +156,10 @@ func gen(r *rand.Rand, idx int, tier string) Input {
 }
 
 func coqRun(b int, fs *tree.Flamebearer, minv uint64) string {
+	return coqRunP(b, fs, minv, "None", 0)
+}
+
+func coqRunP(b int, fs *tree.Flamebearer, minv uint64, param string, def int) string {
 	ns := make([]string, len(fs.Names))
 	for i, n := range fs.Names {
 		ns[i] = lib.Bytes([]byte(n))
@@ -160,7 +174,7 @@ func coqRun(b int, fs *tree.Flamebearer, minv uint64) string {
 	}
 	return "{| r_max := " + lib.Nat(b) + "; r_names := " + lib.List(ns) + "; r_levels := " + lib.List(ls) +
 		"; r_numticks := " + lib.Z(int64(fs.NumTicks)) + "; r_maxself := " + lib.Z(int64(fs.MaxSelf)) +
-		"; r_minval := " + lib.N(minv) + " |}"
+		"; r_minval := " + lib.N(minv) + "; r_param := " + param + "; r_default := " + lib.Nat(def) + " |}"
 }
 
 func walk(n *tree.VerifNode, f func(n *tree.VerifNode, depth int), depth int) {
@@ -171,6 +185,9 @@ func walk(n *tree.VerifNode, f func(n *tree.VerifNode, depth int), depth int) {
 }
 
 func run(in Input) (res lib.Result) {
+	if in.Via == "endpoint" {
+		return runEndpoint(in)
+	}
 	if in.Tree == nil || len(in.Budgets) == 0 {
 		return lib.Result{Crash: "bad input"}
 	}
@@ -361,5 +378,6 @@ func enum(tier string) []Input {
 }
 
 func main() {
+	defer cleanupEndpoint()
 	lib.Main(lib.Harness[Input]{Prop: "C10", Quick: 600, Thorough: 8000, Gen: gen, Enum: enum, Run: run})
 }
